@@ -304,12 +304,25 @@ func vRunSlowFinally(count int, delayMs int, op string) []string {
 		time.Sleep(2 * d)
 	})
 	rt.Proceed(nil, nil)
-	time.Sleep(d - d/4)
 	switch op {
 	case "S":
+		time.Sleep(d - d/4)
 		rt.Success()
 	case "F":
+		time.Sleep(d - d/4)
 		rt.Fail(vUserErr{3})
+	case "raceS", "raceF":
+		// Success / Fail wins the race for the mutex against a timer callback that has already been
+		// started: the body of Success / Fail is executed with the mutex taken before the deadline
+		rt.retryNumMutex.Lock()
+		time.Sleep(d + d/2)
+		rt.stopTimer()
+		if op == "raceS" {
+			rt.TransactionBase.Success()
+		} else {
+			rt.TransactionBase.Fail(vUserErr{3})
+		}
+		rt.retryNumMutex.Unlock()
 	}
 	errAtDone := vErrClass(rt.Err())
 	logf("done %s", errAtDone)
@@ -465,7 +478,7 @@ func TestVerifTx(t *testing.T) {
 
 	// --- mode 2b: the retry timer fires while Success / Fail is still inside its `finally` callback
 	for rep := 0; rep < reps; rep++ {
-		for _, op := range []string{"S", "F"} {
+		for _, op := range []string{"S", "F", "raceS", "raceF"} {
 			for _, cnt := range []int{1, 3} {
 				wg.Add(1)
 				go func(op string, cnt int) {
